@@ -1362,7 +1362,9 @@ class IndexHierarchy(IndexBase):
                 matches.append(as_tuple)
 
         if not matches:
-            return np.full(self.__len__(), False, dtype=bool)
+            array = np.full(self.__len__(), False, dtype=bool)
+            array.flags.writeable = False
+            return array
 
         return isin(self.flat().values, matches)
 
